@@ -1,8 +1,10 @@
 #!/usr/bin/env python3
 """C05 — record files: proofs in coq/Props/C05.v; random and enumerated operation sequences on scratch files for
 the four record types in use through the real functions, whole-file comparison with the model after every step,
-frame predicates on the implementation's own output, torn tails at every byte length."""
-import os, sys
+frame predicates on the implementation's own output, torn tails at every byte length; window reads of thousands of
+records on generated files of 5 000 / 70 000 records (index lists against the model, contents by digest); histories
+in one process during which the OS refuses some writes (RLIMIT_FSIZE = 0: EFBIG), followed by further operations, whole-file comparison after every step."""
+import hashlib, os, struct, sys
 sys.path.insert(0, os.path.join(os.path.dirname(os.path.abspath(__file__)), "..", "lib"))
 import vf
 
@@ -296,11 +298,201 @@ def main():
             c.violation("passwd-update-frame", "PasswdUpdate(uid %d) did not rewrite exactly record %d" % (uid, uid), {"cases": [line], "expected": want, "got": o[:200]})
         c.nontrivial(("pu", uid))
 
+
+    # ------------------------------------------------------------ long windows on large files (thousands of records)
+    def gen_big(cnt, seed):
+        """the file go/impl/cmd/implrun/c05.go c05GenRecord builds; returns per record (1-based i at [i-1]) the 128 bytes"""
+        out = []
+        for i in range(1, cnt + 1):
+            name = (b"M.%010d.A.%03X" % (1500000000 + i, i & 0xfff)).ljust(28, b"\0")
+            body = b"".join(hashlib.sha256(b"%d/%d/%d" % (seed, i, j)).digest() for j in range(4))[:100]
+            out.append(name + body)
+        return out
+
+    def run_idxs(cnt, start, n, desc):
+        if start > cnt:
+            return range(0)
+        return range(start, max(start - n, 0), -1) if desc else range(start, min(start + n, cnt + 1))
+
+    big_sizes = [5000, 70000] + ([300000, 1000000] if thorough else [])
+    for cnt in big_sizes:
+        seed = rng.randrange(1 << 30)
+        keyed = [struct.pack("<q", i + 1) + r for i, r in enumerate(gen_big(cnt, seed))]
+        pows = [(1 << k) + 1 for k in range(10, 24) if (1 << k) < cnt]
+        if cnt <= 5000 or (thorough and cnt <= 70000):
+            ns = sorted(set([4095, 4096, 4097, cnt - 1, cnt, cnt + 1, rng.randrange(4098, cnt), rng.randrange(4098, cnt)] + pows))
+            asc_starts = [1, 2, cnt - 4096, cnt - 4095, rng.randrange(2, cnt - 4097), cnt]
+            desc_starts = [cnt, cnt - 1, 4097, 4096, rng.randrange(4098, cnt), cnt + 1]
+        else:
+            ns = sorted(set([4097, 65537, cnt, cnt + 1, rng.randrange(4098, cnt)] + ([p for p in pows if p > 65537] if thorough else [])))
+            asc_starts = [1, cnt - 4096, rng.randrange(2, cnt - 4097)]
+            desc_starts = [cnt, 4097, rng.randrange(4098, cnt)]
+        wins = [(start, n, desc) for desc in (0, 1) for start in (desc_starts if desc else asc_starts) for n in ns]
+        full_idx = [w for w in wins if cnt <= 5000 or w[1] in (4097, 65537, cnt + 1)]       # index lists against the model
+        l14 = ["14|%d %d %d %d|%d" % (cnt, start, n, desc, seed) for (start, n, desc) in wins]
+        o14 = vf.run_impl(impl, "C05", l14, deadline_ms=120000)
+        c.count(len(l14), "long windows (digest)")
+        for (start, n, desc), line, o in zip(wins, l14, o14):
+            idxs = run_idxs(cnt, start, n, desc)
+            hsh = hashlib.sha256(b"".join(keyed[i - 1] for i in idxs))
+            want = "0 %d %d %d %d" % (len(idxs), idxs[0] if len(idxs) else 0, idxs[-1] if len(idxs) else 0, int.from_bytes(hsh.digest(), "big"))
+            if o.strip() != want:
+                t = o.split()
+                c.violation("read-window-long", "GetRecords(start %d, n %d, %s) on a file of %d records returned %s records (first %s, last %s); the requested run is the %d records %s..%s, each with the bytes stored at its index"
+                            % (start, n, "desc" if desc else "asc", cnt, t[1] if len(t) > 1 else "?", t[2] if len(t) > 2 else "?", t[3] if len(t) > 3 else "?",
+                               len(idxs), idxs[0] if len(idxs) else "-", idxs[-1] if len(idxs) else "-"),
+                            {"cases": [line], "expected": want, "got": o[:300]})
+            c.nontrivial(("bigwin", cnt, "desc" if desc else "asc", n > 4096, len(idxs) > 4096, len(idxs) == n, start > cnt))
+        l13 = ["13|%d %d %d %d|%d" % (cnt, start, n, desc, seed) for (start, n, desc) in full_idx]
+        o13 = vf.run_impl(impl, "C05", l13, deadline_ms=120000)
+        if model:
+            vf.correspond(c, "long windows on %d records: returned indices" % cnt, l13, o13, vf.run_model(model, l13))
+        c.count(len(l13), "long windows (indices)")
+        for (start, n, desc), line, o in zip(full_idx, l13, o13):
+            idxs = run_idxs(cnt, start, n, desc)
+            want = " ".join(["0", str(len(idxs))] + [str(i) for i in idxs])
+            if o.strip() != want:
+                t = o.split()
+                c.violation("read-window-long", "GetRecords(start %d, n %d, %s) on a file of %d records returned %s indices, expected the %d consecutive indices of the run" % (start, n, "desc" if desc else "asc", cnt, t[1] if len(t) > 1 else "?", len(idxs)),
+                            {"cases": [line], "expected": want, "got": o[:300]})
+        c.sample({"op": "long window", "records": cnt, "windows": len(wins), "n values": ns})
+        del keyed
+    c.cov["exhaustive_parts"].append("GetRecords with n in {4095, 4096, 4097, 2^k+1 (k>=10), count-1, count, count+1} from the first / last / (count-4096)th / random record in both directions on a generated 5 000-record file (index list and contents); a subset on 70 000 records")
+
+    # ------------------------------------------------------------ one process: writes refused by the OS (ENOSPC), then operations on a healthy file
+    KIND = {1: "append", 2: "subst", 3: "delete", 4: "modify"}
+
+    def hist_line(sz, f, ops):
+        parts = ["12", str(sz), toks(f)]
+        for (kind, refused, idx, mtime, en, dis, data) in ops:
+            parts += ["%d %d %d %d 0 %d %d" % (kind, refused, idx, mtime, en, dis), toks(data)]
+        return "|".join(parts)
+
+    def hist_expect(sz, f, ops):
+        """reference: what each step must return and leave. A step during which the OS refuses writes returns its own
+        refusal if it has one (then it never reaches the write), otherwise the OS error; nothing changes anywhere"""
+        steps = []
+        for (kind, refused, idx, mtime, en, dis, data) in ops:
+            cnt = len(f) // sz
+            if kind == 1:
+                st, code, g = 0, cnt + 1, f[:cnt * sz] + list(data)
+            elif kind in (2, 3):
+                st, code, g = (3, 2, f) if idx < 0 else (0, 0, pwrite(f, idx * sz, data))
+            else:
+                a = (idx - 1) * sz
+                cs = lambda b: bytes(b).split(b"\0")[0]
+                if not (1 <= idx <= cnt) or cs(f[a:a + 28]) != cs(data):
+                    st, code, g = 3, 1, f
+                else:
+                    r = f[a:a + sz]
+                    if mtime > 0:
+                        r[28:32] = list(struct.pack("<I", mtime))
+                    r[124] = (r[124] | en) & (255 ^ dis)
+                    st, code, g = 0, 0, f[:a] + r + f[a + sz:]
+            if refused:
+                st, code, g = (3, 4, f) if st == 0 else (st, code, f)
+            f = g
+            steps.append((st, code, f))
+        return steps
+
+    def healthy_op(sz, f, kind):
+        cnt = len(f) // sz
+        if kind == 1:
+            return (1, 0, 0, 0, 0, 0, rand_rec(rng, sz))
+        if kind == 2:
+            return (2, 0, rng.choice([0, max(0, cnt - 1), rng.randrange(0, cnt + 1)]), 0, 0, 0, rand_rec(rng, sz))
+        if kind == 3:
+            return (3, 0, rng.choice([0, max(0, cnt - 1), rng.randrange(0, cnt + 1)]), 0, 0, 0, tag)
+        idx = rng.randrange(1, cnt + 1) if cnt else 1
+        name = f[(idx - 1) * sz:(idx - 1) * sz + 28] if cnt else rand_name(rng)
+        if rng.randrange(5) == 0:
+            name = rand_name(rng)                                                  # a stale pair: refused, nothing written
+        return (4, 0, idx, rng.choice([0, 1, rng.randrange(1, 2 ** 31)]), rng.choice([0, 1, 8, rng.randrange(256)]), rng.choice([0, 2, 64, rng.randrange(256)]), name)
+
+    def refused_op(sz, f, kind, where=None):
+        """the same generators, run while the OS refuses writes: on a copy of the file (1) or on the file itself (2)"""
+        o = list(healthy_op(sz, f, kind))
+        o[1] = where or rng.choice([1, 2])
+        if kind in (2, 3) and rng.randrange(3) == 0:
+            o[2] = rng.choice([len(f) // sz + 1, len(f) // sz + 2, -1])        # beyond the end / refused by the seek itself
+        return tuple(o)
+
+    def new_file(sz, k):
+        f = []
+        for _ in range(k):
+            f += rand_rec(rng, sz)
+            if sz == 128:
+                f[-128:-100] = rand_name(rng)
+        return f
+
+    hists = []                                                    # (sz, f, ops, label)
+    # every (refused operation, where, next operation) triple, every stride; then an append (so that whatever the
+    # refused write left behind has a second chance to show, and the process is clean for the next case)
+    for sz in STRIDES:
+        kinds = (1, 2, 3) + ((4,) if sz == 128 else ())
+        for rk in kinds:
+            for where in (1, 2):
+                for hk in kinds:
+                    f = new_file(sz, 4)
+                    ops, g = [], list(f)
+                    for mk in (lambda g: refused_op(sz, g, rk, where), lambda g: healthy_op(sz, g, hk), lambda g: healthy_op(sz, g, 1)):
+                        ops.append(mk(g)); g = hist_expect(sz, g, [ops[-1]])[-1][2]
+                    hists.append((sz, f, ops, "pair"))
+    # random histories with refused writes sprinkled in
+    for sz in STRIDES:
+        for _ in range(40 if thorough else 6):
+            f = new_file(sz, rng.choice([0, 1, 2, 3, 5]))
+            if rng.randrange(4) == 0:
+                f += [rng.randrange(256) for _ in range(rng.randrange(1, sz))]
+            ops, g = [], list(f)
+            for step in range(rng.randrange(4, 30 if thorough else 9)):
+                if rng.randrange(3) == 0:
+                    ops.append(refused_op(sz, g, rng.choice([1, 2, 3] + ([4] if sz == 128 else []))))
+                else:
+                    ops.append(healthy_op(sz, g, rng.choice([1, 1, 2, 3] + ([4, 4] if sz == 128 else []))))
+                g = hist_expect(sz, g, [ops[-1]])[-1][2]
+            if not any(o[1] for o in ops):
+                ops.insert(rng.randrange(len(ops)), refused_op(sz, f, rng.choice([1, 2, 3])))
+            ops.append(healthy_op(sz, g, 1))
+            hists.append((sz, f, ops, "random"))
+    hl = [hist_line(sz, f, ops) for (sz, f, ops, _) in hists]
+    ho = both(hl, "histories with refused writes (one process)")
+    c.count(len(hl), "histories with refused writes")
+    for (sz, f, ops, label), line, o in zip(hists, hl, ho):
+        steps = hist_expect(sz, f, ops)
+        want = "0 " + " ".join("%d %d %d %s" % (st, code, len(g), toks(g)) for (st, code, g) in steps)
+        want = " ".join(want.split())
+        if " ".join(o.split()) != want:
+            # locate the first step that differs
+            t, pos, where = o.split(), 1, "the result could not be parsed (%s)" % o[:30]
+            for k, (st, code, g) in enumerate(steps):
+                if len(t) < pos + 3 or not t[pos + 2].isdigit():
+                    break
+                n = int(t[pos + 2])
+                got = (t[pos], t[pos + 1], t[pos + 3:pos + 3 + n])
+                if got != (str(st), str(code), [str(x) for x in g]):
+                    prev = [KIND[q[0]] for q in ops[:k] if q[1]]
+                    where = ("step %d (%s%s, %s) returned %s %s and left a file of %d bytes; expected %d %d and %d bytes (%d records)%s"
+                             % (k + 1, "refused " if ops[k][1] else "", KIND[ops[k][0]], STRIDES[sz], got[0], got[1], n, st, code, len(g), len(g) // sz,
+                                "; earlier in this process the OS refused the write of: " + ", ".join(prev) if prev else ""))
+                    break
+                pos += 3 + n
+            c.violation("after-refused-write", "history in one process with writes refused by the OS (EFBIG): " + where, {"cases": [line], "expected": want, "got": o[:300]})
+        for k, q in enumerate(ops[:-1]):
+            if q[1]:
+                dk = "refused %s -> %s" % (KIND[q[0]], "OS error" if steps[k][:2] == (3, 4) else "own refusal %d %d" % steps[k][:2])
+                c.cov["distribution"][dk] = c.cov["distribution"].get(dk, 0) + 1
+                c.nontrivial(("refused", sz, KIND[q[0]], q[1], steps[k][:2], KIND[ops[k + 1][0]], ops[k + 1][1], label))
+    c.cov["exhaustive_parts"].append("every triple (operation during which the OS refuses writes: append/substitute/delete-mark, ModifyDirLite for .DIR) x (on the file itself / on another file) x (next operation of the same process) for all four strides, whole file compared after every step")
+    c.sample({"op": "history with refused writes", "stride": hists[-1][0], "steps": [("refused " if q[1] else "") + KIND[q[0]] for q in hists[-1][2]]})
+
     c.finish(rule="sequences: PRNG(seed) mixes of append/substitute/delete/count (+modify/read for .DIR) on files of 0-5 records with optional torn tail, indices from {first,last,random,count,beyond,negative}, stepped with whole-file comparison; "
-                  "enumerations: index -2..6 x {substitute, delete} x 4 strides, all GetRecords windows on 0..4 records, torn tails at every byte; non-trivial = distinct (stride, operation, index class, option mix, result class) or distinct enumerated point",
+                  "enumerations: index -2..6 x {substitute, delete} x 4 strides, all GetRecords windows on 0..4 records, torn tails at every byte; long windows: n around 4096 / 2^k+1 / count on generated files of 5 000 and 70 000 records (thorough: 300 000, 1 000 000), starts first/last/(count-4096)/random, both directions; refused writes: every (refused op, next op) pair per stride + PRNG(seed) histories with refused ops at random positions; non-trivial = distinct (stride, operation, index class, option mix, result class) or distinct enumerated point",
              assumptions=["the kernel writes the bytes it is given at the offset it is given (pwrite semantics incl. zero-filled holes are part of the model, observed, not verified)",
                           "locks (flock, range lock) are not part of this property; single-process runs",
                           "the delete tag is read from the build (ptttype.FN_SAFEDEL, a configurable string) and fed to the model",
+                          "long windows: the file is generated from (count, seed) by the same rule in the driver and in the check (sha256 stream); contents are compared by a sha256 digest over (index, 128 record bytes) of everything returned, index lists literally; n is kept <= count+1 (make([]T,0,n) with n in the billions is an allocation question, not this property)",
+                          "a write the OS refuses is produced with RLIMIT_FSIZE = 0 and SIGXFSZ ignored for the duration of one call (open, flock, range lock, lseek, reads succeed; write(2) returns EFBIG - observed: such a step must report that error unless it refuses by itself first); other causes (ENOSPC, EBADF, EIO) are assumed to take the same path through types.BinaryWrite; a write that is cut short by the OS after some bytes is the torn-tail part, not this one",
                           "GetRecords with n < 0 panics in make(); modelled as Crash, not generated (callers pass n >= 0)"])
 
 
